@@ -159,3 +159,52 @@ pub fn run_op(op: &Value) -> Value {
   let calls: Vec<Value> = loader.calls.borrow().iter().map(|c| json!({"cache_setting": c["cache_setting"], "checksum": c["checksum"]})).collect();
   json!({"calls": calls, "result": result})
 }
+
+
+/// C05 visit kernel replay: one imported module (https / http / file; .ts, .d.ts or .json) is loaded by a real build with a
+/// HashMapLocker that does or does not already hold an entry for it; reports what the lockfile holds afterwards.
+pub fn run_lock_op(op: &Value) -> Value {
+  let scheme = op["scheme"].as_str().unwrap();
+  let ext = op["ext"].as_str().unwrap();
+  let x = if scheme == "file" { format!("file:///x.{ext}") } else { format!("{scheme}://h/x.{ext}") };
+  let content = if ext == "json" { "{}" } else { "export {};" };
+  let attrs = if ext == "json" {
+    ImportAttributes::Known(HashMap::from([("type".to_string(), ImportAttribute::Known("json".to_string()))]))
+  } else { ImportAttributes::None };
+  let dep = DependencyDescriptor::Static(StaticDependencyDescriptor {
+    kind: StaticDependencyKind::Import, types_specifier: None, specifier: x.clone(), specifier_range: PositionRange::zeroed(),
+    is_side_effect: false, import_attributes: attrs });
+  struct A(ModuleInfo);
+  #[async_trait::async_trait(?Send)]
+  impl ModuleAnalyzer for A {
+    async fn analyze(&self, s: &ModuleSpecifier, _t: Arc<str>, _m: MediaType) -> Result<ModuleInfo, deno_error::JsErrorBox> {
+      Ok(if s.as_str() == "file:///root.ts" { self.0.clone() } else { ModuleInfo::default() })
+    }
+  }
+  let analyzer = A(ModuleInfo { dependencies: vec![dep], ..Default::default() });
+  let sources: Vec<(String, Source<String, String>)> = vec![
+    ("file:///root.ts".to_string(), Source::Module { specifier: "file:///root.ts".to_string(), maybe_headers: None, content: "".to_string() }),
+    (x.clone(), Source::Module { specifier: x.clone(), maybe_headers: None, content: content.to_string() }),
+  ];
+  let loader = MemoryLoader::new(sources, vec![]);
+  let xs = ModuleSpecifier::parse(&x).unwrap();
+  let mut locker = HashMapLocker::default();
+  let old = "0".repeat(64);
+  if op["lockfile_has_entry"].as_bool().unwrap() {
+    locker.set_remote_checksum(&xs, LoaderChecksum::new(old.clone()));
+  }
+  let mut graph = ModuleGraph::new(GraphKind::All);
+  futures::executor::block_on(graph.build(
+    vec![ModuleSpecifier::parse("file:///root.ts").unwrap()],
+    vec![],
+    &loader,
+    BuildOptions { module_analyzer: &analyzer, locker: Some(&mut locker), executor: &InlineExecutor, ..Default::default() },
+  ));
+  let entry = locker.remote().get(&xs).map(|c| c.as_str().to_string());
+  let written = entry.as_ref().map(|e| *e != old).unwrap_or(false);
+  json!({
+    "is_module": matches!(graph.try_get(&xs), Ok(Some(_))),
+    "written": written,
+    "digest_of_the_module_bytes": if written { Some(entry.unwrap() == LoaderChecksum::r#gen(content.as_bytes())) } else { None },
+  })
+}
